@@ -27,9 +27,21 @@ inductive Comp where
 
 abbrev Path := List Comp
 
+/-- A value stored in a choice map: the value of a primitive choice (an integer here),
+    either bare or wrapped in a `Mask` with its flag. -/
+inductive CVal where
+  | plain (v : Int)
+  | masked (f : Bool) (v : Int)
+  deriving DecidableEq, Repr, Inhabited
+
+/-- `Mask.build(v, f)` on a stored value: re-masking conjoins the flags. -/
+def CVal.mask (f : Bool) : CVal → CVal
+  | .plain v => .masked f v
+  | .masked g v => .masked (f && g) v
+
 /-- Choice maps / constraints as association lists from paths to (possibly masked)
     values; lookup takes the first match (so `++` is the left-biased `|`). -/
-abbrev CMap := List (Path × Val)
+abbrev CMap := List (Path × CVal)
 
 namespace CMap
 /-- `get_submap(k)` / `chm(k)`. -/
@@ -40,11 +52,11 @@ def sub (c : CMap) (k : Comp) : CMap :=
 /-- `chm(addr)` for a (tuple) static address. -/
 def subStatic (c : CMap) (addr : List String) : CMap := addr.foldl (fun c a => c.sub (.s a)) c
 /-- `get_value()`: the value stored at the empty path. -/
-def leaf (c : CMap) : Option Val := (c.find? (fun pv => pv.1.isEmpty)).map (·.2)
+def leaf (c : CMap) : Option CVal := (c.find? (fun pv => pv.1.isEmpty)).map (·.2)
 /-- Prefix every path (`extend`). -/
 def pre (ks : Path) (c : CMap) : CMap := c.map fun (p, v) => (ks ++ p, v)
 /-- `chm.mask(flag)`. -/
-def maskAll (f : Bool) (c : CMap) : CMap := c.map fun (p, v) => (p, Val.mkMask f v)
+def maskAll (f : Bool) (c : CMap) : CMap := c.map fun (p, v) => (p, v.mask f)
 end CMap
 
 /-- Semantics of the primitive distributions: an arbitrary sampler (a function of the key
@@ -52,8 +64,8 @@ end CMap
     quantify over this structure; the driver instantiates it with the harness's test
     distributions (threefry key data mod m, integer polynomials). -/
 structure DistSem where
-  sample : Nat → KeyPath → Val → Val
-  lp : Nat → Val → Val → Int
+  sample : Nat → KeyPath → Val → Int
+  lp : Nat → Int → Val → Int
 
 /-- Argument maps of `dimap` / `contramap` (functions of `*args` returning the inner
     argument tuple). -/
@@ -91,7 +103,7 @@ inductive Body where
 end
 
 inductive Trace where
-  | dist (d : Nat) (args v : Val) (lp : Int)
+  | dist (d : Nat) (args : Val) (v : Int) (lp : Int)
   | static (args ret : Val) (subs : List (List String × Trace))
   | vec (args ret : Val) (elems : List Trace)               -- VmapTrace / ScanTrace
   | switch (args : Val) (idx : Nat) (sub : Trace)
@@ -123,7 +135,7 @@ end
 
 mutual
 def ret : Trace → Val
-  | dist _ _ v _ => v
+  | dist _ _ v _ => .int v
   | static _ r _ => r
   | vec _ r _ => r
   | switch _ _ sub => ret sub
@@ -147,7 +159,7 @@ mutual
 /-- `get_choices()`.  Entries under a false (traced) mask flag stay present as invalid
     masked values, exactly as `chm.mask(flag)` keeps them. -/
 def choices : Trace → CMap
-  | dist _ _ v _ => [([], v)]
+  | dist _ _ v _ => [([], .plain v)]
   | static _ _ subs => choicesAL subs
   | vec _ _ elems => choicesL 0 elems
   | switch _ _ sub => choices sub
@@ -194,29 +206,29 @@ def leaf (ds : DistSem) (m : Mode) (d : Nat) (i : In) : Except Err Res :=
   | .assess =>
     match i.c.leaf with
     | none => .error .missing
-    | some (.mask _ v) => .ok ⟨.dist d i.args v (lp v), lp v, [], true⟩     -- flag unchecked (checkify off)
-    | some v => .ok ⟨.dist d i.args v (lp v), lp v, [], true⟩
+    | some (.masked _ v) => .ok ⟨.dist d i.args v (lp v), lp v, [], true⟩     -- flag unchecked (checkify off)
+    | some (.plain v) => .ok ⟨.dist d i.args v (lp v), lp v, [], true⟩
   | .gen =>
     match i.c.leaf with
     | none => .ok ⟨.dist d i.args fresh (lp fresh), 0, [], true⟩
-    | some (.mask f v) =>
+    | some (.masked f v) =>
       if f then .ok ⟨.dist d i.args v (lp v), lp v, [], true⟩
       else .ok ⟨.dist d i.args fresh (lp fresh), 0, [], true⟩
-    | some v => .ok ⟨.dist d i.args v (lp v), lp v, [], true⟩
+    | some (.plain v) => .ok ⟨.dist d i.args v (lp v), lp v, [], true⟩
   | .upd => do
     match ← oldOf i with
     | .dist _ _ ov olp =>
       match i.c.leaf with
       | none => pure ⟨.dist d i.args ov (lp ov), lp ov - olp, [], true⟩
-      | some (.mask f v) =>
+      | some (.masked f v) =>
         let nv := if f then v else ov
-        pure ⟨.dist d i.args nv (lp nv), lp nv - olp, [([], Val.mkMask f ov)], true⟩
-      | some v => pure ⟨.dist d i.args v (lp v), lp v - olp, [([], ov)], true⟩
+        pure ⟨.dist d i.args nv (lp nv), lp nv - olp, [([], .masked f ov)], true⟩
+      | some (.plain v) => pure ⟨.dist d i.args v (lp v), lp v - olp, [([], .plain ov)], true⟩
     | _ => .error .shape
   | .regen => do
     match ← oldOf i with
     | .dist _ _ ov olp =>
-      if i.sel.check then pure ⟨.dist d i.args fresh (lp fresh), lp fresh - olp, [([], ov)], true⟩
+      if i.sel.check then pure ⟨.dist d i.args fresh (lp fresh), lp fresh - olp, [([], .plain ov)], true⟩
       else pure ⟨.dist d i.args ov (lp ov), lp ov - olp, [], true⟩
     | _ => .error .shape
 
@@ -279,6 +291,13 @@ def nthOld (old : Option Trace) (k : Nat) : Except Err (Option Trace) :=
   | some (.vec _ _ elems) => match elems[k]? with | some t => .ok (some t) | none => .error .shape
   | some _ => .error .shape
 
+/-- An edit of a vector trace needs the previous trace to have the same length (the
+    implementation's `jax.vmap` / `lax.scan` over old subtraces and new arguments would fail). -/
+def checkOldLen (old : Option Trace) (n : Nat) : Except Err Unit :=
+  match old with
+  | some (.vec _ _ elems) => if elems.length = n then .ok () else .error .shape
+  | _ => .ok ()
+
 def lookupSub (subs : List (List String × Trace)) (a : List String) : Option Trace :=
   (subs.find? (fun p => p.1 = a)).map (·.2)
 
@@ -311,18 +330,23 @@ def staticRun (m : Mode) (i : In)
   let (st, r) ← body olds env
   pure ⟨.static i.args r st.subs, st.w, st.bwd, st.bwdOk⟩
 
+/-- The previous subtrace an edit handler fetches for `addr` (`get_inner_trace` / `get_subtrace`). -/
+def bindOld (m : Mode) (olds : List (List String × Trace)) (addr : List String) : Except Err (Option Trace) :=
+  match m with
+  | .upd | .regen => match lookupSub olds addr with
+    | some t => .ok (some t)
+    | none => .error .missing
+  | _ => .ok none
+
 /-- What one `trace(addr, gen_fn, args)` does before calling the callee. -/
 def bindIn (m : Mode) (i : In) (olds : List (List String × Trace)) (st : SState) (addr : List String)
-    (a : List Val) : Except Err In := do
-  if (lookupSub st.subs addr).isSome then throw .reuse          -- StaticHandler.record
-  let subc := i.c.subStatic addr
-  if m == .assess && subc.isEmpty then throw .missing           -- AssessHandler.handle_trace
-  let o ← match m with
-    | .upd | .regen => match lookupSub olds addr with
-      | some t => pure (some t)
-      | none => .error .missing
-    | _ => pure none
-  pure { i with c := subc, sel := i.sel.subs addr, old := o, key := i.key.child st.counter, args := .tup a }
+    (a : List Val) : Except Err In :=
+  if (lookupSub st.subs addr).isSome then .error .reuse                     -- StaticHandler.record
+  else if m == .assess && (i.c.subStatic addr).isEmpty then .error .missing -- AssessHandler.handle_trace
+  else match bindOld m olds addr with
+    | .error e => .error e
+    | .ok o => .ok { i with c := i.c.subStatic addr, sel := i.sel.subs addr, old := o,
+                            key := i.key.child st.counter, args := .tup a }
 
 /-- … and after it returned. -/
 def bindOut (st : SState) (addr : List String) (r : Res) : SState :=
@@ -342,19 +366,16 @@ def vecRes (args ret : Val) (rs : List Res) : Res :=
 def vmapRun (axes : List Bool) (i : In) (f : In → Except Err Res) : Except Err Res := do
   let as ← argList i.args
   let n ← dimLength axes as
+  checkOldLen i.old n
   let rs ← vmapLoop (fun k => do f (← vmapElem axes as i k)) 0 n
   pure (vecRes i.args (.arr (rs.map (·.tr.ret))) rs)
 
-def scanArgs (length : Option Nat) (args : Val) : Except Err (Val × List Val) := do
-  let (carry, xs) ← match args with
-    | .tup [c, .arr xs] => pure (c, xs)
-    | .tup [c, .tup []] => match length with
-      | some n => pure (c, List.replicate n Val.unit)
-      | none => .error .shape
-    | _ => .error .shape
-  if let some n := length then
-    if n ≠ xs.length then throw .shape
-  pure (carry, xs)
+def scanArgs (length : Option Nat) (args : Val) : Except Err (Val × List Val) :=
+  match args, length with
+  | .tup [c, .arr xs], none => .ok (c, xs)
+  | .tup [c, .arr xs], some n => if n = xs.length then .ok (c, xs) else .error .shape
+  | .tup [c, .tup []], some n => .ok (c, List.replicate n Val.unit)
+  | _, _ => .error .shape
 
 /-- Iteration `k` of a scan.  Inside `Scan.edit_update / edit_regenerate` every argument diff is
     forced to `unknown_change`, so a switch index below is always "changed". -/
@@ -366,18 +387,20 @@ def scanElem (m : Mode) (i : In) (k : Nat) (key : KeyPath) (carry x : Val) : Exc
 /-- `Scan.{simulate, assess, generate, edit_update, edit_regenerate}`. -/
 def scanRun (m : Mode) (length : Option Nat) (i : In) (f : In → Except Err Res) : Except Err Res := do
   let (carry, xs) ← scanArgs length i.args
+  checkOldLen i.old xs.length
   let (rs, final) ← scanLoop (fun k key carry x => do f (← scanElem m i k key carry x)) 0 i.key carry xs
   let ys ← rs.mapM secondOfRet
   pure (vecRes i.args (.tup [final, .arr ys]) rs)
 
-def switchArgs (n : Nat) (args : Val) : Except Err (Nat × Val) := do
-  let (idxv, bargs) ← match args with
-    | .tup (.int idx :: bargs) => pure (idx, bargs)
-    | _ => .error .shape
-  if bargs.length ≠ n then throw .shape
-  if idxv < 0 ∨ idxv ≥ n then throw .oob
-  let idx := idxv.toNat
-  match bargs[idx]? with | some a => pure (idx, a) | none => .error .shape
+def switchArgs (n : Nat) (args : Val) : Except Err (Nat × Val) :=
+  match args with
+  | .tup (.int idxv :: bargs) =>
+    if bargs.length ≠ n then .error .shape
+    else if idxv < 0 ∨ idxv ≥ n then .error .oob
+    else match bargs[idxv.toNat]? with
+      | some a => .ok (idxv.toNat, a)
+      | none => .error .shape
+  | _ => .error .shape
 
 /-- `Switch.{simulate, assess, generate, edit}`; `f m idx` runs branch `idx` in mode `m`. -/
 def switchRun (m : Mode) (n : Nat) (i : In) (f : Mode → Nat → In → Except Err Res) : Except Err Res := do
@@ -391,8 +414,8 @@ def switchRun (m : Mode) (n : Nat) (i : In) (f : Mode → Nat → In → Except 
         let fresh ← f .sim idx { i with old := none, args := ba }
         let r ← f .upd idx { i with old := some fresh.tr, args := ba, changed := false }
         pure ⟨.switch i.args idx r.tr, r.w + (r.tr.score - osub.score), r.bwd, r.bwdOk && idx == 0⟩
+      else if oidx ≠ idx then .error .shape        -- a dishonest NoChange tag: outside the model
       else do
-        if oidx ≠ idx then throw .shape            -- a dishonest NoChange tag: outside the model
         let r ← f .upd idx { i with old := some osub, args := ba }
         pure ⟨.switch i.args idx r.tr, r.w, r.bwd, r.bwdOk && idx == 0⟩
     | _ => .error .shape
